@@ -2,6 +2,7 @@
 import json, os, struct
 import vlib
 
+COQ_TARGETS = ["Props/Properties_C16.vo", "Turn/Extract_Turn.vo"]      # what `./check setup` builds for this property (the extraction feeds the OCaml driver)
 META = dict(
     text="Coq theorems (Props/Properties_C16.v) over an executable byte-level model of socket/udp-turn.c (coq/Turn/TurnModel.v) and an "
          "independent relay specification written from RFC 5766 and the draft/Google/MSN/OC2007 variants (coq/Turn/Relay.v): what the "
